@@ -288,7 +288,47 @@ def r16_8(ctx: Ctx, rule: str = "R16.8") -> None:
               "_sanitize_archive_arcname lets an arcname with U+0000 through to the member table (write/writeall with arcname)", construct="NUL in arcname")
 
 
+def r16_9(ctx: Ctx, rule: str = "R16.9") -> None:
+    """both name gates judge the name AS IT WILL BE LISTED: py7zr's reader turns every backslash into '/', and Windows readers do the
+    same, so '\\abs.txt' and '..\\..\\x' are an absolute and a climbing name.  check_archive_path and the arcname sanitiser therefore
+    (a) replace backslashes by '/' before any other test, (b) drop leading './' before the drive-prefix test ('./c:/x' is 'c:/x' once
+    pathlib has normalised it), (c) refuse names that cannot be encoded as UTF-16 (a lone surrogate - what os.listdir returns for a file
+    name that is not valid UTF-8 - otherwise makes close() fail with UnicodeEncodeError and the whole archive is lost), and
+    (d) check_archive_path refuses a drive prefix like the sanitiser does."""
+    for mod, qual in (("helpers", "check_archive_path"), ("py7zr", "SevenZipFile._sanitize_archive_arcname")):
+        f = ctx.prog.func(mod, qual)
+        cfg = cfg_of(f.node)
+        repl = [c for c in q.calls(f) if attr_tail(c) == "replace" and len(c.args) == 2 and isinstance(c.args[0], ast.Constant) and c.args[0].value == "\\"
+                and isinstance(c.args[1], ast.Constant) and c.args[1].value == "/"]
+        # every later test on the name comes after the replacement: the replacement dominates all returns that accept
+        accepts = [r for r in walk(f.node) if isinstance(r, ast.Return) and r.value is not None and not (isinstance(r.value, ast.Constant) and r.value.value is False)]
+        ok = bool(repl) and all(cfg.dominates(q.node_for(f, repl[0]), q.node_for(f, r)) for r in accepts)
+        ctx.check(ok, rule, f, repl[0] if repl else f.node, f"{f.name}: backslashes are taken for separators before the name is judged",
+                  f"{f.qname} judges the name with backslashes as ordinary characters although every reader (py7zr's own included) lists them as '/': on POSIX "
+                  "'\\abs.txt', '\\\\server\\share\\f' and '..\\..\\evil' pass and the closed archive lists '/abs.txt', '//server/share/f', '../../evil'",
+                  construct=f"{f.name} backslash")
+        enc = [c for c in q.calls(f) if attr_tail(c) == "encode" and c.args and isinstance(c.args[0], ast.Constant) and str(c.args[0].value).lower().replace("_", "-") == "utf-16le"]
+        guarded = any(isinstance(t, ast.Try) and any(e in list(ast.walk(st)) for st in t.body for e in enc) and
+                      any(h.type is not None and "Unicode" in norm(h.type) for h in t.handlers) for t in walk(f.node) if isinstance(t, ast.Try))
+        ctx.check(bool(enc) and guarded, rule, f, enc[0] if enc else f.node, f"{f.name}: names that cannot be stored as UTF-16 are refused at once",
+                  f"{f.qname} accepts a name with a lone surrogate (os.listdir gives one for a file name that is not valid UTF-8): the write call succeeds, close() raises "
+                  "UnicodeEncodeError while writing the Names record, the file keeps its placeholder header and every member of the session is lost",
+                  construct=f"{f.name} unencodable name")
+        dots = [lp for lp in walk(f.node) if isinstance(lp, ast.While) and any(isinstance(x, ast.Constant) and x.value == "./" for x in ast.walk(lp.test))]
+        ctx.check(bool(dots), rule, f, f.node, f"{f.name}: leading './' is dropped before the drive-prefix test",
+                  f"{f.qname} tests the drive prefix on the raw text: './c:/x.txt' passes and is stored as 'c:/x.txt' once pathlib has dropped the './'",
+                  construct=f"{f.name} dot-slash before drive test")
+    c = ctx.prog.func("helpers", "check_archive_path")
+    drive = any(isinstance(t, ast.If) and any(isinstance(x, ast.Constant) and x.value == ":" for x in ast.walk(t.test)) and
+                any(isinstance(r, ast.Return) and isinstance(r.value, ast.Constant) and r.value.value is False for st in t.body for r in ast.walk(st)) for t in walk(c.node)) or \
+        any(isinstance(x, ast.Call) and dotted(x.func) in ("re.match", "re.search") and x.args and isinstance(x.args[0], ast.Constant) and ":" in str(x.args[0].value) for x in walk(c.node))
+    ctx.check(drive, rule, c, c.node, "check_archive_path refuses a drive prefix",
+              "check_archive_path accepts 'c:/windows/x.txt' (relative for pathlib on POSIX) while the sanitiser of write()/writeall() treats a drive prefix as absolute: "
+              "writestr/writef store a name that is absolute where drives exist", construct="check_archive_path drive prefix")
+
+
 def run(ctx: Ctx) -> None:
+    r16_9(ctx)
     r16_8(ctx)
     r16_7(ctx)
     r16_6(ctx)
